@@ -29,3 +29,10 @@ func JoinOr(xs []string, sep string) string {
 	}
 	return strings.Join(xs, sep)
 }
+
+func minInt(a, b int) int {
+	if a < b {
+		return a
+	}
+	return b
+}
